@@ -758,6 +758,7 @@ def run(ctx):
         union_value_cases(ctx, out, tmp)
         hash_column_cases(ctx, out, tmp)
         reuse_cases(ctx, out, tmp)
+        edited_list_history_cases(ctx, out, tmp)
     mo = ctx.driver.run([r for r, _ in reqs])
     for (r, text), m in zip(reqs, mo):
         if has_unmodelled(m):
@@ -771,6 +772,39 @@ def run(ctx):
             else:
                 out.disagreements.append({"op": "writer.run", "header": r["header_lines"], "model": (m.get("init_exc") or mt[-200:]), "impl": text[-200:]})
     return out
+
+
+def eval_roundtrip_after(case, tmp, toucher=None):
+    """eval_roundtrip after the piece of process history the case names (case["history"]): "parsed-lists-edited" = a
+    parsed record's list values were edited in place earlier in the process (colcases.edit_parsed_lists)."""
+    import random
+    undo = colcases.edit_parsed_lists(case["scheme"], random.Random(7)) if case.get("history") == "parsed-lists-edited" else (lambda: None)
+    try:
+        return eval_roundtrip(case, tmp, toucher)
+    finally:
+        undo()
+
+
+def edited_list_history_cases(ctx, out, tmp):
+    """Round trips of records whose list columns the caller sets to lists of its own (here: empty ones), after a parsed
+    record's lists were edited in place: what comes back is what was supplied."""
+    import maflib.column_types as CT
+    rng = ctx.rng("c02-edited-lists")
+    layouts = [a for a in impl.builtin_annotations()
+               if any(issubclass(impl.scheme_by_annotation(a).column_class(n), CT.SequenceOfValuesColumn) for n in impl.scheme_by_annotation(a).column_names())]
+    for ann in rng.sample(layouts, min(len(layouts), ctx.scale(4, len(layouts)))):
+        sch = impl.scheme_by_annotation(ann)
+        listcols = [n for n in sch.column_names() if issubclass(sch.column_class(n), CT.SequenceOfValuesColumn)]
+        lines = ["\t".join(colcases.valid_fields(ann, rng, prefer_nonnull=0.5)) for _ in range(2)]
+        edits = [[[n, []] for n in listcols] for _ in lines]
+        case = {"scheme": ann, "header": ["#version " + sch.version(), "#annotation.spec " + ann], "lines": lines, "channel": rng.choice(CHANNELS),
+                "derived": None, "edits": None, "history": "parsed-lists-edited"}
+        out.evaluations += 1
+        e = eval_roundtrip_after(case, tmp, Toucher(stored=edits))
+        out.failures += e["failures"]
+        out.distribution["round trip after a parsed record's lists were edited in place"] += 1
+        if e.get("recs"):
+            out.nontrivial.add(repr((ann, "parsed-lists-edited", lines)))
 
 
 def route_cases(ctx, out, reqs, tmp):
@@ -1009,7 +1043,9 @@ def replay_case(ctx, failure):
         return None
     toucher = Toucher(stored=case["edits"]) if case["edits"] is not None else None
     with tempfile.TemporaryDirectory() as tmp:
-        e = eval_roundtrip(dict(case), tmp, toucher)
+        e = eval_roundtrip_after(dict(case), tmp, toucher)
+    if case.get("history") == "parsed-lists-edited":
+        print("replay C02: earlier in the process, lines of the layout were parsed and the lists the parsed records hand out were edited in place (value.append(...))")
     if case.get("header_spec"):
         sp = case["header_spec"]
         print("replay C02: header obtained by route '%s' (%s); it lists the pragmas %s" % (
